@@ -27,7 +27,10 @@ RULE = ("Surfer ASCII grid files written to build/C19/files and read by the real
         "counts swapped / every other factorisation of rows x columns (product preserving, on non-square bodies) /+-1/0/negative/missing/extra/non-integer, data range swapped/shifted inside and outside the "
         "allclose band/one-sided/including blanks/1 or 3 tokens, region lines swapped/short/long, header lines swapped "
         "or dropped); garbage (bad tokens, ragged rows, empty/short files, 1-row/1-column/single-value bodies, "
-        "nan/inf tokens, all-blank grids, missing path, closed file object). Non-trivial = the file was accepted and a "
+        "nan/inf tokens, all-blank grids, missing path, closed file object). The path is given in every legitimate "
+        "spelling in turn (absolute, relative, ./x, a//b, a/./b, a/../a/b, mixed) as a str and as a pathlib.Path, and "
+        "every attribute of the returned DataArray is compared (attrs keys in order, file value AND type, gridID, name, "
+        "dims, dtype): attrs['file'] must be the given object, a str character by character. Non-trivial = the file was accepted and a "
         "grid returned; distinct = distinct (file text, dtype, call mode).")
 ASSUMPTIONS = [
     "conversion of a single token to a number is an oracle: Python int()/float() for the header, float() (then "
@@ -125,39 +128,75 @@ def is_blank(v, dtype):
 # running the implementation
 # ---------------------------------------------------------------------------
 class _Tracker:
-    """records the file objects obtained through builtins.open for one path"""
+    """records the file objects obtained through builtins.open / io.open (pathlib) for one file"""
 
     def __init__(self, path):
-        self.path = path
+        self.path = None if path is None else os.path.realpath(path)
         self.files = []
         self.orig = builtins.open
+        self.orig_io = io.open
 
     def __enter__(self):
         def tracking_open(file, *a, **k):
             f = self.orig(file, *a, **k)
             try:
-                if isinstance(file, (str, os.PathLike)) and os.fspath(file) == self.path:
+                if (self.path is not None and isinstance(file, (str, os.PathLike))
+                        and os.path.realpath(os.fspath(file)) == self.path):
                     self.files.append(f)
             except Exception:
                 pass
             return f
         builtins.open = tracking_open
+        io.open = tracking_open
         return self
 
     def __exit__(self, *exc):
         builtins.open = self.orig
+        io.open = self.orig_io
 
 
 def _nfd():
     return len(os.listdir("/proc/self/fd"))
 
 
-def observe(vd_load, path, mode, dtype):
-    """mode: 'path' | 'missing' | 'file' | 'closedfile'.  returns dict"""
+SPELLINGS = ["abs", "rel", "dot-rel", "abs-dslash", "abs-dot", "abs-dotdot", "rel-dslash", "rel-dot",
+             "rel-dotdot", "dot-mix"]
+
+
+def spell(kind, path, cwd=None):
+    """a legitimate spelling of the existing file [path] (absolute), relative ones w.r.t. cwd"""
+    cwd = cwd or os.getcwd()
+    d, name = os.path.split(path)
+    reld = os.path.relpath(d, cwd)
+    base = os.path.basename(d)
+    return {
+        "abs": path,
+        "rel": os.path.join(reld, name),
+        "dot-rel": "./" + os.path.join(reld, name),
+        "abs-dslash": d + "//" + name,
+        "abs-dot": d + "/./" + name,
+        "abs-dotdot": d + "/../" + base + "/" + name,
+        "rel-dslash": reld + "//" + name,
+        "rel-dot": reld + "/./" + name,
+        "rel-dotdot": reld + "/../" + base + "/" + name,
+        "dot-mix": "./" + reld + "/.//" + name,
+    }[kind]
+
+
+def observe(vd_load, path, mode, dtype, spelling="abs"):
+    """mode: 'path' | 'pathobj' | 'missing' | 'file' | 'closedfile'; [spelling] of the path for the first two.
+    returns dict; out['given'] is the string given (str(Path) for 'pathobj')"""
+    import pathlib
     fobj = None
     arg = path
+    given = None
     if mode == "missing":
-        arg = path + ".does-not-exist"
+        arg = given = path + ".does-not-exist"
+    elif mode == "path":
+        arg = given = spell(spelling, path)
+    elif mode == "pathobj":
+        arg = pathlib.Path(spell(spelling, path))
+        given = str(arg)
     elif mode in ("file", "closedfile"):
         fobj = open(path, "r")
         if mode == "closedfile":
@@ -166,14 +205,14 @@ def observe(vd_load, path, mode, dtype):
     res = None
     exc = None
     before = _nfd()
-    with _Tracker(arg if isinstance(arg, str) else "\0") as tr:
+    with _Tracker(path if mode in ("path", "pathobj") else None) as tr:
         try:
             res = vd_load(arg, dtype=dtype)
         except BaseException as e:  # noqa: B902  (the traceback keeps the frame and its file alive)
             exc = e
     after = _nfd()
     leak = max(0, after - before) + sum(1 for f in tr.files if not f.closed)
-    out = {"leak": leak, "given_closed": None if fobj is None else bool(fobj.closed)}
+    out = {"leak": leak, "given_closed": None if fobj is None else bool(fobj.closed), "given": given}
     if exc is not None:
         if isinstance(exc, OSError):
             cls = "EIO"
@@ -199,8 +238,18 @@ def observe(vd_load, path, mode, dtype):
             out["northing"], out["easting"] = [], []
         gid = res.attrs.get("gridID", "<<missing>>")
         out["gridID"] = gid if isinstance(gid, str) else "<<not a str>>"
+        # every attribute: keys in order, the [file] value with its type, the DataArray's name
+        out["attr_keys"] = [str(k) for k in res.attrs]
         fa = res.attrs.get("file")
-        out["file"] = None if fa is None else str(fa)
+        if fa is None:
+            out["file"] = None
+        elif type(fa) is str:
+            out["file"] = ["str", fa]
+        elif isinstance(fa, os.PathLike):
+            out["file"] = ["path", str(fa)]
+        else:
+            out["file"] = ["str", "<<%s>>" % type(fa).__name__]
+        out["name"] = None if getattr(res, "name", None) is None else str(res.name)
     del exc
     if fobj is not None:
         fobj.close()
@@ -220,13 +269,17 @@ def _json_vals(out):
 _counter = [0]
 
 
-def make_case(vd_load, text, mode, dtype, kind):
+def cfattr(fa):
+    return "(%s %s)" % ("FStr" if fa[0] == "str" else "FPathObj", cstr_safe(fa[1]))
+
+
+def make_case(vd_load, text, mode, dtype, kind, spelling="abs"):
     os.makedirs(FILES, exist_ok=True)
     _counter[0] += 1
     path = os.path.join(FILES, "c%06d.grd" % _counter[0])
     with open(path, "w", newline="") as f:
         f.write(text)
-    out = observe(vd_load, path, mode, dtype)
+    out = observe(vd_load, path, mode, dtype, spelling)
     lines = text.split("\n")
     # oracle tables: tokens as Python sees them
     toks = [ln.split() for ln in lines]
@@ -246,9 +299,10 @@ def make_case(vd_load, text, mode, dtype, kind):
     c_tflt = clist(["(%s, %s)" % (cstr_safe(t), copt(v, cnum)) for t, v in tflt.items()])
     c_tval = clist(["(%s, %s)" % (cstr_safe(t), copt(v, cnum)) for t, v in tval.items()])
     c_dt = "F32" if dtype == "float32" else "F64"
-    apath = path + ".does-not-exist" if mode == "missing" else path
     if mode in ("path", "missing"):
-        c_src = "(CPath %s %s)" % (cstr_safe(apath), cbool(mode == "path"))
+        c_src = "(CPath %s %s)" % (cstr_safe(out["given"]), cbool(mode == "path"))
+    elif mode == "pathobj":
+        c_src = "(CPathObj %s true)" % cstr_safe(out["given"])
     else:
         c_src = "(CFile %s)" % cbool(mode == "closedfile")
     if "error" in out:
@@ -259,22 +313,32 @@ def make_case(vd_load, text, mode, dtype, kind):
             c_odt = c_dt
         else:  # anything but the requested dtype
             c_odt = "F64" if c_dt == "F32" else "F32"
-        c_res = "(OOk {| og_vals := %s; og_north := %s; og_east := %s; og_id := %s; og_file := %s; og_dims := %s; og_dtype := %s |})" % (
+        c_res = ("(OOk {| og_vals := %s; og_north := %s; og_east := %s; og_id := %s; og_file := %s; "
+                 "og_attr_keys := %s; og_name := %s; og_dims := %s; og_dtype := %s |})") % (
             clist([clist([cnum(v) for v in row]) for row in out["values"]]),
             clist([cDsafe(v) for v in out["northing"]]),
             clist([cDsafe(v) for v in out["easting"]]),
-            cstr_safe(out["gridID"]), copt(out["file"], cstr_safe),
+            cstr_safe(out["gridID"]), copt(out["file"], cfattr),
+            clist([cstr_safe(k) for k in out["attr_keys"]]), copt(out["name"], cstr_safe),
             clist([cstr_safe(d) for d in out["dims"]]), c_odt)
     c_obs = "{| ob_res := %s; ob_leak := %s; ob_given_closed := %s |}" % (
         c_res, cZ(out["leak"]), copt(out["given_closed"], cbool))
     term = "c19_case %s %s %s %s %s %s %s" % (c_lines, c_tint, c_tflt, c_tval, c_dt, c_src, c_obs)
-    repro = ("import os, verde; p = %r; os.makedirs(os.path.dirname(p), exist_ok=True); open(p, 'w', newline='').write(%r); "
-             % (os.path.join(FILES, "replay.grd"), text))
-    if mode in ("path", "missing"):
-        repro += "print(verde.load_surfer(p%s, dtype=%r))" % (" + '.does-not-exist'" if mode == "missing" else "", dtype)
+    rp = os.path.join(FILES, "replay.grd")
+    cwd = os.getcwd()
+    repro = ("import os, pathlib, verde; os.chdir(%r); p = %r; os.makedirs(os.path.dirname(p), exist_ok=True); "
+             "open(p, 'w', newline='').write(%r); " % (cwd, rp, text))
+    show = "print(g); print(g.attrs, g.name)"
+    if mode == "missing":
+        repro += "g = verde.load_surfer(p + '.does-not-exist', dtype=%r); %s" % (dtype, show)
+    elif mode == "path":
+        repro += "g = verde.load_surfer(%r, dtype=%r); %s" % (spell(spelling, rp, cwd), dtype, show)
+    elif mode == "pathobj":
+        repro += "g = verde.load_surfer(pathlib.Path(%r), dtype=%r); %s" % (spell(spelling, rp, cwd), dtype, show)
     else:
-        repro += "f = open(p); %sprint(verde.load_surfer(f, dtype=%r))" % ("f.close(); " if mode == "closedfile" else "", dtype)
-    inp = {"text": text, "dtype": dtype, "call": mode}
+        repro += "f = open(p); %sg = verde.load_surfer(f, dtype=%r); %s" % ("f.close(); " if mode == "closedfile" else "", dtype, show)
+    inp = {"text": text, "dtype": dtype, "call": mode, "spelling": spelling if mode in ("path", "pathobj") else None,
+           "given": out["given"]}
     return Case(inp, _json_vals(out), term, repro, kind, nontrivial=("ok" in out))
 
 
@@ -658,8 +722,11 @@ def generate(tier, seed):
     def both(text, kind, dtype=None, modes=("path", "file")):
         flip[0] += 1
         dt = dtype or ("float64" if flip[0] % 2 else "float32")
+        sp = SPELLINGS[(flip[0] * 7) % len(SPELLINGS)]       # every spelling of the path, in turn
+        if flip[0] % 6 == 0:
+            modes = tuple("pathobj" if m == "path" else m for m in modes)
         for m in modes:
-            cases.append(make_case(vd_load, text, m, dt, kind))
+            cases.append(make_case(vd_load, text, m, dt, kind, spelling=sp))
 
     # 1. valid files
     n_valid = 100 if quick else 1100
@@ -717,6 +784,13 @@ def generate(tier, seed):
     # 5. garbage and call modes
     for name, text in garbage(rnd, None):
         both(text, "garbage", None, modes=("path", "file"))
+    # 6. every spelling of the path x str / pathlib.Path, accepted and refused files
+    sp_ok = "DSAA\n3 4\n10.0 30.0\n-5.0 2.5\n-7.5 120.25\n1.5 2.5 -7.5 4\n5 6 1.70141e38 8\n9 120.25 11 12\n"
+    sp_bad = "DSAA\n3 4\n10.0 30.0\n-5.0 2.5\n-7.5 121\n1.5 2.5 -7.5 4\n5 6 1.70141e38 8\n9 120.25 11 12\n"
+    for k, sp in enumerate(SPELLINGS):
+        for m in ("path", "pathobj"):
+            cases.append(make_case(vd_load, sp_ok, m, "float64" if k % 2 else "float32", "spelling", spelling=sp))
+            cases.append(make_case(vd_load, sp_bad, m, "float32" if k % 2 else "float64", "spelling", spelling=sp))
     ok_text = "DSAA\n2 3\n0 1\n0 2\n1 6\n1 2 3\n4 5 6\n"
     bad_text = "DSAA\n2 3\n0 1\n0 2\n1 7\n1 2 3\n4 5 6\n"
     for dt in ("float64", "float32"):
